@@ -330,6 +330,15 @@ class KEval:
         return False
 
     def stmt(self, st, env, S, f, guards, loops, depth) -> bool:
+        if (isinstance(st, ast.Assign) and len(st.targets) == 1 and isinstance(st.targets[0], ast.Name) and isinstance(st.value, ast.BinOp) and isinstance(st.value.op, (ast.Add, ast.Sub))):
+            # a scalar written  x = x + e  is the counter update  x += e  (same statement for scalars; arrays are left alone: rebinding is not an in-place update)
+            x = st.targets[0].id
+            l, r = st.value.left, st.value.right
+            other = r if (isinstance(l, ast.Name) and l.id == x) else (l if (isinstance(st.value.op, ast.Add) and isinstance(r, ast.Name) and r.id == x) else None)
+            if other is not None and x in env and not isinstance(env.get(x), (Ref, Top)) and not any(isinstance(n, ast.Name) and n.id == x for n in ast.walk(other)):
+                v = self.ev(other, env, S, f, guards, loops, depth)
+                self.assign(st.targets[0], v, "+=" if isinstance(st.value.op, ast.Add) else "-=", env, S, f, guards, loops, depth, st, binop=st.value.op)
+                return False
         if isinstance(st, ast.Assign):
             v = self.ev(st.value, env, S, f, guards, loops, depth, hint=self._hint(st.targets[0]))
             for t in st.targets:
